@@ -31,4 +31,18 @@ REGISTRY = {
         "level_note": "Trusted: Coq kernel/vm_compute, the hand-written model (checked by correspondence, not generated), harness and orchestration; HashMap iteration order abstracted (outputs compared per key). No axioms.",
         "explanation": "Theorems C12_* (Props/C12.v) are proved for every size/slide/exact, every arrival sequence, every accumulator; the correspondence runs the real key_by+window(CountWindow)+fold chain single-threaded on scripted inputs and compares every returned element with the model, and evaluates the theorem's right-hand side directly on the implementation output.",
     },
+    "C15": {
+        "corr": "C15",
+        "trusted": [
+            "modelled: IntoParallelSource::generate_iterator for Range<T> (i64 detour, saturating ops, truncating division, try_into panics explicit), FileSource::setup/next over a byte list, the byte-range arithmetic of CsvSource::setup, IteratorSource/ChannelSource output shape",
+            "modelled only (not verified): BufRead::read_until/read_line and Seek semantics; the csv crate's record parser (the correspondence uses plain numeric records; quoted fields containing terminators are outside the claim); UTF-8 validity of files",
+        ],
+        "assumptions": [
+            "ranges of at most 2^62 elements, 1 <= replicas <= 2^32",
+            "csv terminator is '\\n' or '\\r\\n'; no quoted record terminators",
+        ],
+        "level_text": "Proof: range splitting (all integer types, saturation/overflow explicit), the line-based file source and the CSV byte-range alignment are modelled in Gallina; partition theorems are proved for every range, file content and replica count. Tied to the code by calling the real generate_iterator / FileSource / CsvSource for every replica on generated inputs (boundary-biased ranges, exhaustive small files) and comparing inside Coq.",
+        "level_note": "Trusted: Coq kernel/vm_compute, hand-written model (checked by correspondence), harness; read_until/read_line/seek and the csv record parser are assumed, not verified. No axioms.",
+        "explanation": "Theorems C15_* proved for all inputs; correspondence on 10 integer types, files and csv inputs.",
+    },
 }
